@@ -129,6 +129,14 @@ theorem dedup_of_nodup (l : List α) (h : l.Nodup) : dedup l = l := by
     simp only [decide_eq_true_eq]
     exact fun e => h.1 (e ▸ hy)
 
+theorem idxOf_cons_ite (x : α) (xs : List α) (y : α) :
+    (x :: xs).idxOf y = if x = y then 0 else xs.idxOf y + 1 := by
+  rw [List.idxOf_cons]
+  by_cases h : x = y
+  · subst h; simp
+  · have : (x == y) = false := beq_eq_false_iff_ne.2 h
+    simp [this, h]
+
 /-- Filtering keeps the relative position of the elements it keeps. -/
 theorem idxOf_filter_lt (p : α → Bool) (l : List α) (a b : α) (ha : p a = true) (hb : p b = true) :
     (l.filter p).idxOf a < (l.filter p).idxOf b ↔ l.idxOf a < l.idxOf b := by
@@ -137,12 +145,17 @@ theorem idxOf_filter_lt (p : α → Bool) (l : List α) (a b : α) (ha : p a = t
   | cons z zs ih =>
     by_cases hz : p z = true
     · rw [List.filter_cons_of_pos hz]
-      simp only [List.idxOf_cons]
-      by_cases h1 : z = a <;> by_cases h2 : z = b <;> simp [h1, h2] <;> omega
+      simp only [idxOf_cons_ite]
+      by_cases h1 : z = a <;> by_cases h2 : z = b
+      · rw [if_pos h1, if_pos h2, if_pos h1, if_pos h2]
+      · rw [if_pos h1, if_neg h2, if_pos h1, if_neg h2]; omega
+      · rw [if_neg h1, if_pos h2, if_neg h1, if_pos h2]; omega
+      · rw [if_neg h1, if_neg h2, if_neg h1, if_neg h2]; omega
     · rw [List.filter_cons_of_neg hz]
-      have h1 : z ≠ a := fun e => hz (e ▸ ha)
-      have h2 : z ≠ b := fun e => hz (e ▸ hb)
-      simp only [List.idxOf_cons, beq_iff_eq, h1, h2, cond_false]
+      have h1 : ¬ z = a := fun e => hz (e ▸ ha)
+      have h2 : ¬ z = b := fun e => hz (e ▸ hb)
+      simp only [idxOf_cons_ite]
+      rw [if_neg h1, if_neg h2]
       omega
 
 /-- First-occurrence order: `a` comes before `b` in `dedup l` exactly when the first occurrence of
@@ -152,15 +165,15 @@ theorem idxOf_dedup_lt (l : List α) (a b : α) :
   induction l with
   | nil => simp [dedup]
   | cons x xs ih =>
-    simp only [dedup, List.idxOf_cons]
+    simp only [dedup, idxOf_cons_ite]
     by_cases h1 : x = a <;> by_cases h2 : x = b
-    · simp [h1, h2]
-    · simp [h1, h2]
-    · simp [h1, h2]
+    · rw [if_pos h1, if_pos h2, if_pos h1, if_pos h2]
+    · rw [if_pos h1, if_neg h2, if_pos h1, if_neg h2]; omega
+    · rw [if_neg h1, if_pos h2, if_neg h1, if_pos h2]; omega
     · have ha : (fun y => decide (y ≠ x)) a = true := by simpa using fun e => h1 e.symm
       have hb : (fun y => decide (y ≠ x)) b = true := by simpa using fun e => h2 e.symm
       have := idxOf_filter_lt (fun y => decide (y ≠ x)) (dedup xs) a b ha hb
-      simp only [beq_iff_eq, h1, h2, cond_false]
+      rw [if_neg h1, if_neg h2, if_neg h1, if_neg h2]
       omega
 
 end Dedup
@@ -201,8 +214,9 @@ theorem odGet_odSet (d : List (α × β)) (k k' : α) (v : β) :
     by_cases h : k₀ = k
     · subst h; by_cases h2 : k₀ = k' <;> simp [odSet, odGet, h2]
     · by_cases h2 : k₀ = k'
-      · have : ¬ k = k' := fun e => h (h2.trans e.symm)
-        simp [odSet, odGet, h, h2, this]
+      · subst h2
+        have : ¬ k = k₀ := fun e => h e.symm
+        simp [odSet, odGet, h, this]
       · simp [odSet, odGet, h, h2, ih]
 
 theorem mem_odSet (d : List (α × β)) (k : α) (v : β) (e : α × β) (h : e ∈ odSet d k v) :
@@ -289,7 +303,7 @@ theorem odGet_odExtend (d l : List (α × β)) (k : α) :
 /-- Last assignment wins. -/
 theorem odGet_odFromList (l : List (α × β)) (k : α) : odGet (odFromList l) k = lastVal l k := by
   have := odGet_odExtend [] l k
-  simpa [odGet] using this
+  simpa [odGet, odFromList, odExtend] using this
 
 theorem mem_odExtend (d l : List (α × β)) (e : α × β) (h : e ∈ odExtend d l) : e ∈ d ∨ e ∈ l := by
   induction l generalizing d with
@@ -325,12 +339,247 @@ theorem odExtend_of_nodup (d l : List (α × β)) (h : ((d ++ l).map (·.1)).Nod
 /-- Building a dict from pairs with distinct keys changes nothing. -/
 theorem odFromList_of_nodup (l : List (α × β)) (h : (l.map (·.1)).Nodup) : odFromList l = l := by
   have := odExtend_of_nodup [] l (by simpa using h)
-  simpa using this
+  simpa [odFromList, odExtend] using this
 
 theorem odExtend_append (d l₁ l₂ : List (α × β)) :
     odExtend d (l₁ ++ l₂) = odExtend (odExtend d l₁) l₂ := by
   simp [odExtend, List.foldl_append]
 
 end OD
+
+/-! ### The two loops of `initglobals` in closed form -/
+
+theorem stepKnown_knownVersions (t : Tables) (r : Rec) :
+    (stepKnown t r).knownVersions = odSet t.knownVersions r.id r.protocol := by
+  unfold stepKnown; dsimp only; split <;> split <;> rfl
+
+theorem stepKnown_knownProtocols (t : Tables) (r : Rec) :
+    (stepKnown t r).knownProtocols
+      = if r.protocol ∈ t.knownProtocols then t.knownProtocols
+        else t.knownProtocols ++ [r.protocol] := by
+  unfold stepKnown; dsimp only; split <;> split <;> rfl
+
+theorem stepKnown_indices (t : Tables) (r : Rec) :
+    (stepKnown t r).indices
+      = if r.protocol ∈ t.knownProtocols then t.indices
+        else odSet t.indices r.protocol t.knownProtocols.length := by
+  unfold stepKnown; dsimp only; split <;> split <;> rfl
+
+theorem stepKnown_supportedVersions (t : Tables) (r : Rec) :
+    (stepKnown t r).supportedVersions
+      = if r.supported then odSet t.supportedVersions r.id r.protocol
+        else t.supportedVersions := by
+  unfold stepKnown; dsimp only; split <;> split <;> simp_all
+
+theorem stepKnown_rest (t : Tables) (r : Rec) :
+    (stepKnown t r).supportedProtocols = t.supportedProtocols ∧
+    (stepKnown t r).releaseVersions = t.releaseVersions ∧
+    (stepKnown t r).releaseProtocols = t.releaseProtocols := by
+  unfold stepKnown; dsimp only; split <;> split <;> exact ⟨rfl, rfl, rfl⟩
+
+theorem zipIdx_keys {α : Type} (l : List α) (n : Nat) : (l.zipIdx n).map (·.1) = l := by
+  induction l generalizing n with
+  | nil => rfl
+  | cons x xs ih => simp [ih]
+
+theorem foldl_stepKnown (recs : List Rec) (t : Tables)
+    (h : t.indices = t.knownProtocols.zipIdx) :
+    recs.foldl stepKnown t =
+      { knownVersions := odExtend t.knownVersions (recPairs recs)
+        knownProtocols := dedupFrom t.knownProtocols (recs.map (·.protocol))
+        supportedVersions := odExtend t.supportedVersions (recPairs (recs.filter (·.supported)))
+        indices := (dedupFrom t.knownProtocols (recs.map (·.protocol))).zipIdx
+        supportedProtocols := t.supportedProtocols
+        releaseVersions := t.releaseVersions
+        releaseProtocols := t.releaseProtocols } := by
+  induction recs generalizing t with
+  | nil =>
+    obtain ⟨kv, kp, sv, idx, sp, rv, rp⟩ := t
+    simp only at h
+    simp [odExtend, dedupFrom, recPairs, h]
+  | cons r rs ih =>
+    have hinv : (stepKnown t r).indices = (stepKnown t r).knownProtocols.zipIdx := by
+      rw [stepKnown_indices, stepKnown_knownProtocols]
+      by_cases hp : r.protocol ∈ t.knownProtocols
+      · rw [if_pos hp, if_pos hp, h]
+      · rw [if_neg hp, if_neg hp, h, odSet_of_not_mem _ _ _ (by rwa [zipIdx_keys]),
+          List.zipIdx_append]
+        simp
+    rw [List.foldl_cons, ih _ hinv, stepKnown_knownVersions, stepKnown_knownProtocols,
+      stepKnown_supportedVersions, (stepKnown_rest t r).1, (stepKnown_rest t r).2.1,
+      (stepKnown_rest t r).2.2]
+    have e1 : odExtend (odSet t.knownVersions r.id r.protocol) (recPairs rs)
+        = odExtend t.knownVersions (recPairs (r :: rs)) := rfl
+    have e2 : dedupFrom (if r.protocol ∈ t.knownProtocols then t.knownProtocols
+          else t.knownProtocols ++ [r.protocol]) (rs.map (·.protocol))
+        = dedupFrom t.knownProtocols ((r :: rs).map (·.protocol)) := rfl
+    have e3 : odExtend (if r.supported then odSet t.supportedVersions r.id r.protocol
+          else t.supportedVersions) (recPairs (rs.filter (·.supported)))
+        = odExtend t.supportedVersions (recPairs ((r :: rs).filter (·.supported))) := by
+      by_cases hs : r.supported = true
+      · rw [if_pos hs, List.filter_cons_of_pos hs]; rfl
+      · rw [if_neg hs, List.filter_cons_of_neg hs]
+    rw [e1, e2, e3]
+
+theorem stepSupported_fields (t : Tables) (e : String × Nat) :
+    (stepSupported t e).knownVersions = t.knownVersions ∧
+    (stepSupported t e).knownProtocols = t.knownProtocols ∧
+    (stepSupported t e).supportedVersions = t.supportedVersions ∧
+    (stepSupported t e).indices = t.indices ∧
+    (stepSupported t e).supportedProtocols
+      = (if e.2 ∈ t.supportedProtocols then t.supportedProtocols
+         else t.supportedProtocols ++ [e.2]) ∧
+    (stepSupported t e).releaseVersions
+      = (if isRelease e.1 then odSet t.releaseVersions e.1 e.2 else t.releaseVersions) ∧
+    (stepSupported t e).releaseProtocols
+      = (if isRelease e.1 then
+          (if e.2 ∈ t.releaseProtocols then t.releaseProtocols else t.releaseProtocols ++ [e.2])
+         else t.releaseProtocols) := by
+  unfold stepSupported; dsimp only
+  split <;> split <;> (try split) <;> simp_all
+
+theorem foldl_stepSupported (l : List (String × Nat)) (t : Tables) :
+    l.foldl stepSupported t =
+      { knownVersions := t.knownVersions
+        knownProtocols := t.knownProtocols
+        supportedVersions := t.supportedVersions
+        indices := t.indices
+        supportedProtocols := dedupFrom t.supportedProtocols (l.map (·.2))
+        releaseVersions := odExtend t.releaseVersions (l.filter (fun e => isRelease e.1))
+        releaseProtocols :=
+          dedupFrom t.releaseProtocols ((l.filter (fun e => isRelease e.1)).map (·.2)) } := by
+  induction l generalizing t with
+  | nil => rfl
+  | cons e l ih =>
+    obtain ⟨f1, f2, f3, f4, f5, f6, f7⟩ := stepSupported_fields t e
+    rw [List.foldl_cons, ih, f1, f2, f3, f4, f5, f6, f7]
+    have e5 : dedupFrom (if e.2 ∈ t.supportedProtocols then t.supportedProtocols
+          else t.supportedProtocols ++ [e.2]) (l.map (·.2))
+        = dedupFrom t.supportedProtocols ((e :: l).map (·.2)) := rfl
+    rw [e5]
+    by_cases hr : isRelease e.1 = true
+    · rw [if_pos hr, if_pos hr, List.filter_cons_of_pos (by simpa using hr)]; rfl
+    · rw [if_neg hr, if_neg hr, List.filter_cons_of_neg (by simpa using hr)]
+
+/-- The second half of `initglobals` in closed form: the three release/supported tables are
+functions of `supportedVersions` only; the other four tables are untouched. -/
+theorem rebuildSupported_eq (t : Tables) :
+    rebuildSupported t =
+      { knownVersions := t.knownVersions
+        knownProtocols := t.knownProtocols
+        supportedVersions := t.supportedVersions
+        indices := t.indices
+        supportedProtocols := dedup (t.supportedVersions.map (·.2))
+        releaseVersions := odFromList (t.supportedVersions.filter (fun e => isRelease e.1))
+        releaseProtocols :=
+          dedup ((t.supportedVersions.filter (fun e => isRelease e.1)).map (·.2)) } := by
+  unfold rebuildSupported
+  rw [foldl_stepSupported]
+  simp only [dedupFrom_nil]
+  rfl
+
+theorem filter_keys_nodup {α β : Type} (l : List (α × β)) (p : α × β → Bool)
+    (h : (l.map (·.1)).Nodup) : ((l.filter p).map (·.1)).Nodup :=
+  h.sublist (List.filter_sublist.map _)
+
+/-- `initglobals(True)` does not depend on the previous state of the globals and equals the closed
+form. -/
+theorem initKnownFrom_eq_spec (prev : Tables) (recs : List Rec) :
+    initKnownFrom prev recs = specTables recs := by
+  unfold initKnownFrom
+  rw [foldl_stepKnown _ _ rfl, rebuildSupported_eq]
+  simp only [dedupFrom_nil, specTables]
+  have hk : odExtend [] (recPairs (recs.filter (·.supported)))
+      = odFromList (recPairs (recs.filter (·.supported))) := rfl
+  have hk2 : odExtend [] (recPairs recs) = odFromList (recPairs recs) := rfl
+  rw [hk, hk2, odFromList_of_nodup _ (filter_keys_nodup _ _ (odFromList_keys_nodup _))]
+
+theorem initKnown_eq_spec (recs : List Rec) : initKnown recs = specTables recs :=
+  initKnownFrom_eq_spec _ _
+
+/-! ### The index map -/
+
+theorem odGet_zipIdx (l : List Nat) (n pv : Nat) :
+    odGet (l.zipIdx n) pv = if pv ∈ l then some (n + l.idxOf pv) else none := by
+  induction l generalizing n with
+  | nil => simp [odGet]
+  | cons x xs ih =>
+    rw [List.zipIdx_cons, odGet, ih, idxOf_cons_ite]
+    by_cases h : x = pv
+    · simp [h]
+    · have h' : ¬ pv = x := fun e => h e.symm
+      simp only [h, if_false, List.mem_cons, h', false_or]
+      split
+      · congr 1; omega
+      · rfl
+
+theorem index_spec (recs : List Rec) (pv : Nat) :
+    index (initKnown recs) pv
+      = if pv ∈ (initKnown recs).knownProtocols
+        then some ((initKnown recs).knownProtocols.idxOf pv) else none := by
+  rw [initKnown_eq_spec]
+  simp only [index, specTables, odGet_zipIdx, Nat.zero_add]
+  split <;> simp_all
+
+theorem getElem?_eq_some_iff_idxOf (l : List Nat) (hl : l.Nodup) (i pv : Nat) :
+    l[i]? = some pv ↔ pv ∈ l ∧ l.idxOf pv = i := by
+  induction l generalizing i with
+  | nil => simp
+  | cons x xs ih =>
+    rw [List.nodup_cons] at hl
+    rw [idxOf_cons_ite]
+    cases i with
+    | zero =>
+      by_cases h : x = pv
+      · simp [h]
+      · have h' : ¬ pv = x := fun e => h e.symm
+        simp [h, h']
+    | succ i =>
+      rw [List.getElem?_cons_succ, ih hl.2]
+      by_cases h : x = pv
+      · subst h; simp [hl.1]
+      · have h' : ¬ pv = x := fun e => h e.symm
+        simp [h, h']
+
+theorem idxOf_getElem_of_nodup (l : List Nat) (hl : l.Nodup) (i : Nat) (hi : i < l.length) :
+    l.idxOf l[i] = i :=
+  ((getElem?_eq_some_iff_idxOf l hl i l[i]).1 (List.getElem?_eq_getElem hi)).2
+
+theorem knownProtocols_nodup (recs : List Rec) : (initKnown recs).knownProtocols.Nodup := by
+  rw [initKnown_eq_spec]; exact nodup_dedup _
+
+theorem indexE_known (recs : List Rec) (pv : Nat) (h : pv ∈ (initKnown recs).knownProtocols) :
+    indexE (initKnown recs) pv = .ok ((initKnown recs).knownProtocols.idxOf pv) := by
+  simp only [indexE, index_spec, h, if_true]
+
+theorem indexE_unknown (recs : List Rec) (pv : Nat) (h : pv ∉ (initKnown recs).knownProtocols) :
+    indexE (initKnown recs) pv = .error .other := by
+  simp only [indexE, index_spec, h, if_false]
+
+/-! ### The comparison functions in terms of `indexE` -/
+
+theorem earlier_ok (t : Tables) (a b i j : Nat) (ha : indexE t a = .ok i) (hb : indexE t b = .ok j) :
+    earlier t a b = .ok (decide (i < j)) := by
+  simp only [earlier, ha, hb]; rfl
+
+theorem earlierEq_ok (t : Tables) (a b i j : Nat) (ha : indexE t a = .ok i)
+    (hb : indexE t b = .ok j) : earlierEq t a b = .ok (decide (i ≤ j)) := by
+  simp only [earlierEq, ha, hb]; rfl
+
+theorem indexE_cases (t : Tables) (a : Nat) :
+    (∃ i, indexE t a = .ok i) ∨ indexE t a = .error .other := by
+  unfold indexE; cases index t a with
+  | some i => exact Or.inl ⟨i, rfl⟩
+  | none => exact Or.inr rfl
+
+theorem earlier_err_left (t : Tables) (a b : Nat) (ha : indexE t a = .error .other) :
+    earlier t a b = .error .other ∧ earlierEq t a b = .error .other := by
+  simp only [earlier, earlierEq, ha]; exact ⟨rfl, rfl⟩
+
+theorem earlier_err_right (t : Tables) (a b : Nat) (hb : indexE t b = .error .other) :
+    earlier t a b = .error .other ∧ earlierEq t a b = .error .other := by
+  rcases indexE_cases t a with ⟨i, ha⟩ | ha
+  · simp only [earlier, earlierEq, ha, hb]; exact ⟨rfl, rfl⟩
+  · exact earlier_err_left t a b ha
 
 end PyCraft
